@@ -6,11 +6,11 @@ Number and text classes follow DESIGN.md 3.2.
 """
 import math
 
-NAME_POOL = ["words", "phones", "t 1", 'q"uote', 'dq""uote', "a=b", "7", "é𝄞", "x" * 40, "Mary's", "tier[1]", "100%"]
+NAME_POOL = ["words", "phones", "e\u0301", "\u212b", "t 1", 'q"uote', 'dq""uote', "a=b", "7", "é𝄞", "x" * 40, "Mary's", "tier[1]", "100%"]
 LABEL_POOL = [
     "", "a", "hello world", "7", "3.14", "-0", "x = y", 'say "hi"', '""', '"', 'a""b', '"start', 'end"', '"both"', "line1\nline2", "a\n\nb",
     'q"\n"r', "é", "日本語", "𝄞 clef", "tab\tinside", "a!b", "! bang", "<exists>", "semi;colon", "back\\slash", "x" * 300, "a  b", "%d %s",
-    "1e-05", "xmin", "text", "mark", "number", "size = 3", "null\x00byte", "-", "--", "0", "None", "false", "[]", "_",
+    "e\u0301tude", "\u212bngstr\u00f6m", "\u1112\u1161\u11ab", "a\u0303o \u00e3o", "\ufb01n", "1e-05", "xmin", "text", "mark", "number", "size = 3", "null\x00byte", "-", "--", "0", "None", "false", "[]", "_",
 ]
 KEYWORD_LABELS = ['item [2]:', 'intervals [1]:', 'points [1]:', '"IntervalTier"', '"TextTier"', 'class = "IntervalTier"', 'text = "x"',
                   'ooTextFile short', 'item[1]:', 'intervals: size = 2', 'before\nitem [3]:\nafter', 'name = "fake"', 'xmin = 5']
